@@ -114,6 +114,16 @@ func runC10(e *Env) {
 	cfg.Writers = 1 + e.P(3)
 	cfg.PerWriter = 1 + e.P(4)
 	cfg.Scribblers = e.P(3)
+	if e.P(3) == 2 {
+		// overload family: reader-typed messages (streamed through a pooled chunk buffer that is queued itself)
+		// against a small non-blocking queue and a stalled sender, so that some writes are refused, followed by
+		// more writes. Single-chunk readers only: larger ones are streamed as several writes (C09's subject).
+		cfg.Entries = []int{EWrite1, EReadFrom, EReadFrom, EWritev, EWriterWrite, ECtxWrite1}
+		cfg.Chan = ChanCfg{Async: true, Q: []int{1, 2, 3}[e.P(3)], Until: e.P(4) == 3}
+		cfg.StallSender = e.P(2) == 0
+		cfg.SmallReaders = true
+		cfg.PerWriter = 2 + e.P(4)
+	}
 	h := e.RunWriters(cfg)
 	segs, bad := parseWire(h.Rig.Conn, h.Calls)
 	if bad != "" {
